@@ -140,10 +140,11 @@ class ArrayMap(Map):
             unique = set()
             for cls in prog.__class__.__mro__:
                 for k, v in cls.__dict__.items():
-                    if isinstance(v, ArrayGlobalVarDesc) and v.map is self \
-                            and k not in unique:
+                    if k in unique:
+                        continue  # shadowed, whatever shadows it
+                    unique.add(k)
+                    if isinstance(v, ArrayGlobalVarDesc) and v.map is self:
                         collection.append((fmtsize(v.fmt), prog, k))
-                        unique.add(k)
         collection.sort(key=lambda t: t[0], reverse=True)
         position = 0
         for size, prog, name in collection:
